@@ -7,6 +7,7 @@ import XMT.Drv.C11
 import XMT.Drv.C12
 import XMT.Drv.C13
 import XMT.Drv.C14
+import XMT.Drv.C15
 import XMT.Drv.C17
 import XMT.Drv.C18
 import XMT.Drv.C19
@@ -23,6 +24,7 @@ def dispatch (line : String) : String :=
   | "C12" :: args => XMT.Drv.C12.handle args
   | "C13" :: args => XMT.Drv.C13.handle args
   | "C14" :: args => XMT.Drv.C14.handle args
+  | "C15" :: args => XMT.Drv.C15.handle args
   | "C17" :: args => XMT.Drv.C17.handle args
   | "C18" :: args => XMT.Drv.C18.handle args
   | "C19" :: args => XMT.Drv.C19.handle args
